@@ -23,3 +23,7 @@ import (
 func hasLinks(info os.FileInfo) bool {
 	return false
 }
+
+func writable(f *os.File) bool {
+	return true
+}
